@@ -386,6 +386,7 @@ TOKENS = {
     "U0": (ref.UBX, "frame", _U0),
     "Uack": (ref.UBX, "frame", _UACK),
     "Ucfg": (ref.UBX, "frame", ref.frame(6, 1, b"\xf0\x05")),
+    "UcfgSet": (ref.UBX, "frame", ref.frame(6, 1, b"\xf0\x05\x00\x01\x00\x01\x00\x00")),  # same message type, SET-sized payload
     "Uinf": (ref.UBX, "frame", ref.frame(4, 2, _NMEA1 + b"\xb5\x62")),
     "Ubad": (ref.UBX, "frame", _bad(_UACK)),
     "Uunk": (ref.UBX, "frame", ref.frame(1, 0x12, bytes(range(36)))),  # NAV-VELNED: GET only
